@@ -86,7 +86,11 @@ where
   type Unsub = Subject::Unsub;
 
   fn actual_subscribe(self, mut observer: O) -> Self::Unsub {
-    observer.next(self.value.rc_deref().clone());
+    // Read the current value first: the subscriber must not be called while
+    // the value cell is borrowed (locked, in the thread-safe form), or a
+    // `peek()` / `next()` / subscription from inside its callback deadlocks.
+    let current = self.value.rc_deref().clone();
+    observer.next(current);
     self.subject.actual_subscribe(observer)
   }
 }
